@@ -1,6 +1,6 @@
 """C13 — VROOM samples cells from the rank-based distribution and points inside the cell."""
 from .. import configs
-from ..algorun import replay_algo, run_algo_task
+from ..algorun import bystander_tasks, replay_algo, run_algo_task
 from ..refs.vroom import VroomOracle
 from ..world import InterposedQuery
 
@@ -43,6 +43,7 @@ def tasks(tier, seed):
         # get_last_point() asked between pull and receive_reward (environment move, <= 1 (thorough 2) departures among RNG answers and queries)
         ts.append({"kind": "algo", "label": "fullq/" + lab, "cfg": cfg, "mode": "full", "T": T + 1, "R": list(configs.R2),
                    "query_k": 1 if tier == "quick" else 2, "interpose": True, "cost": n, "max_exec": 60000 if tier == "quick" else 800000})
+        ts += bystander_tasks(lab, configs.shifted(cfg), configs.R3, T_long=n, T_short=min(n, 6), bases=("twopeak",), k=1, max_exec=60000)
         dk = 1 if (tier == "quick" or n == 16) else 2
         ts.append({"kind": "algo", "label": "dev/" + lab, "cfg": cfg, "mode": "dev", "T": n, "R": list(configs.R3), "base": "twopeak",
                    "k": dk, "cost": n, "max_exec": 60000 if tier == "quick" else 800000})
